@@ -254,6 +254,7 @@ CLAIMED = {
          'is reported by start, end and duration alike; Journal statements. add() can create a both-present state '
          '(witness), so exclusivity is stated for setter/deleter histories and "reported" for arbitrary states.',
          '_get_start_end_duration, start, end, duration, is_date are regenerated from the source by tools/py2lean.py and proved equal to the hand model (body_get_start_end_duration ...). '
+         'The setter / deleter closures p_set / p_del of create_single_property and _set_duration / _del_duration are regenerated too and proved equal to pSet / setDuration / the deleter step (body_p_set, body_p_del, body_set_duration, body_del_duration, body_step, body_step_excl); the getter closure p_get and _get_duration stay hand-modelled. '
          'Trusted: Lean kernel; hand model of the descriptors and getters tied by correspondence (all op sequences <= 2 '
          'over every accessor x argument kind x Event/Todo/Journal, random 3-8 step histories, parsed property '
          'combinations, both providers); zone offsets are inputs of the model (taken from the provider per value).',
